@@ -16,18 +16,21 @@ Open Scope Q_scope.
 
 (* ---- the code is the published definition (regenerated from the source, all arguments) *)
 
-Theorem C06_code_percentage_error : forall t p s, gen_percentage_error t p s = pct_err s t p.
-Proof. exact gen_percentage_error_eq. Qed.
-Print Assumptions C06_code_percentage_error.
+Theorem C06_code_point_losses : forall n o t p bn e, gen_point n o t p bn = Some e ->
+  match fam (gen_struct n o) with
+  | FSimple b k _ => e = point1 b k t p bn
+  | _ => False
+  end.
+Proof. exact gen_point_eq. Qed.
+Print Assumptions C06_code_point_losses.
 
-Theorem C06_code_relative_error : forall t p b, gen_relative_error t p b = rel_err t p b.
-Proof. exact gen_relative_error_eq. Qed.
-Print Assumptions C06_code_relative_error.
-
-Theorem C06_code_asymmetric_error : forall t p thr l r,
-  gen_asymmetric_error t p thr l r = pwf (PAsym thr l r) (t - p).
-Proof. exact gen_asymmetric_error_eq. Qed.
-Print Assumptions C06_code_asymmetric_error.
+Theorem C06_point_loss_is_per_step : forall b k c,
+  pt b k c = match b with
+             | BRel => map3 (point1 b k) (c_true c) (c_pred c) (c_bench c)
+             | _ => map2 (fun t p => point1 b k t p 0) (c_true c) (c_pred c)
+             end.
+Proof. exact pt_is_pointwise. Qed.
+Print Assumptions C06_point_loss_is_per_step.
 
 (* each of the 18 functions: helper, point loss, aggregate, root and output handling as published *)
 Theorem C06_code_structure_is_textbook : forall n o, gen_struct n o = textbook n o.
